@@ -441,3 +441,65 @@ End EvalDyn.
 
 Definition run_class_dyn (fuel : nat) (c : class) (globals : list str) (calls : list (str * Z)) :=
   dyn_calls c fuel calls (init_state c globals) [].
+
+(* ---- where the var block may stand: ast.File.ClassFieldsDecl takes the FIRST var declaration among the leading
+   general declarations of the class file (imports, consts and types before it are skipped; a func ends the search) ---- *)
+Inductive topdecl := TImport | TConst | TType | TVar (specs : list spec) | TFunc.
+
+Fixpoint class_fields_decl (ds : list topdecl) : option (list spec) :=
+  match ds with
+  | [] => None
+  | TVar s :: _ => Some s
+  | TFunc :: _ => None
+  | _ :: t => class_fields_decl t
+  end.
+
+Definition class_struct (ds : list topdecl) : list field :=
+  match class_fields_decl ds with Some s => class_fields s | None => [] end.
+
+(* ---- two instances of the class: every instance has its own fields, globals and trace are shared.
+   A call is (on the first instance?, method, argument). ---- *)
+Definition res2 := (list Z * (store * store) * (store * list Z))%type.
+
+Fixpoint run_objs (fm : form) (cls : class) (fuel : nat) (calls : list (bool * (str * Z)))
+    (fa fb gl : store) (tr acc : list Z) : outcome res2 :=
+  match calls with
+  | [] => Val (rev acc, (fa, fb), (gl, tr))
+  | (o, (m, v)) :: t =>
+      match call_method fm cls fuel m v (mkms (if o then fa else fb) gl tr) with
+      | Val (r, st1) =>
+          if o then run_objs fm cls fuel t (sfields st1) fb (sglobals st1) (strace st1) (r :: acc)
+          else run_objs fm cls fuel t fa (sfields st1) (sglobals st1) (strace st1) (r :: acc)
+      | Undefined => Undefined
+      | Fuel => Fuel
+      end
+  end.
+
+Fixpoint dyn_objs (cls : class) (fuel : nat) (calls : list (bool * (str * Z)))
+    (fa fb gl : store) (tr acc : list Z) : outcome res2 :=
+  match calls with
+  | [] => Val (rev acc, (fa, fb), (gl, tr))
+  | (o, (m, v)) :: t =>
+      match dyn_call cls fuel m v (mkms (if o then fa else fb) gl tr) with
+      | Val (r, st1) =>
+          if o then dyn_objs cls fuel t (sfields st1) fb (sglobals st1) (strace st1) (r :: acc)
+          else dyn_objs cls fuel t fa (sfields st1) (sglobals st1) (strace st1) (r :: acc)
+      | Undefined => Undefined
+      | Fuel => Fuel
+      end
+  end.
+
+(* the first instance is built with a composite literal that sets the first field to 1 (&K{f: 1}), the second with new(K) *)
+Definition init_fields (c : class) (first : Z) : store :=
+  match cfields c with
+  | [] => []
+  | f :: t => (f, first) :: map (fun x => (x, 0)) t
+  end.
+Definition zero_store (l : list str) : store := map (fun x => (x, 0)) l.
+
+Definition run2_class (fuel : nat) (c : class) (globals : list str) calls :=
+  run_objs ClassForm c fuel calls (init_fields c 1) (init_fields c 0) (zero_store globals) [] [].
+Definition run2_explicit (fuel : nat) (c : class) (globals : list str) calls :=
+  run_objs ExplicitForm (desugar_class c) fuel calls (init_fields c 1) (init_fields c 0) (zero_store globals) [] [].
+Definition run2_dyn (fuel : nat) (c : class) (globals : list str) calls :=
+  dyn_objs c fuel calls (init_fields c 1) (init_fields c 0) (zero_store globals) [] [].
